@@ -24,6 +24,7 @@ type subscriber struct {
 	// another key) is moved to the address the datapath looks up, so that the rest is explored.
 	steered  [2]bool
 	wroteKey [2][]byte
+	smaller  [2]bool // the stored bucket is smaller than the configured burst (class only)
 }
 
 func (s *subscriber) rate(dir int) uint64 {
@@ -128,38 +129,45 @@ func (p *plane) locate(t fataler, s *subscriber, dir int, steer bool) (b bucket,
 
 // contract derives what the statement promises for (s, dir) from the policy handed to the control
 // plane and checks the stored bucket against it ("the policy set through the control plane is the one
-// enforced").  The returned burst is the contract the traffic oracle uses.
-func contract(t fataler, s *subscriber, dir int, b bucket) (rate uint64, burst uint32, abandon bool) {
+// enforced").  burst is the contract the traffic oracle uses for clause 1 and the slack of clause 2;
+// bucket (<= burst) is the size of the bucket enforcing it (saturation precondition of clause 2).
+//
+// Fields are compared only where a difference contradicts the statement observably: another rate, a
+// bucket LARGER than the configured burst (admits more than burst + rate*window), another priority.
+// A bucket smaller than the configured burst keeps clause 1, and clause 2 for a subscriber that really
+// always has a packet waiting; it is reported as a class, not a violation.  The initial fill is not
+// compared (its unit is the datapath's business); an over-full start shows as over-admission in traffic.
+func contract(t fataler, s *subscriber, dir int, b bucket) (rate uint64, burst, bkt uint32, abandon bool) {
 	rate = s.rate(dir)
 	if b.Rate != rate {
-		return 0, 0, failSig(t, sigFields+"/rate/"+dirName(dir), "%s bucket of %s has rate %d, policy says %d", dirName(dir), s, b.Rate, rate)
+		return 0, 0, 0, failSig(t, sigFields+"/rate/"+dirName(dir), "%s bucket of %s has rate %d, policy says %d", dirName(dir), s, b.Rate, rate)
 	}
-	burst = s.Burst
-	if burst == 0 {
+	burst, bkt = s.Burst, b.Burst
+	switch {
+	case burst == 0:
 		// no burst configured: the contract is the default the manager chose (documented: one second
 		// of traffic, at least 64 KB); nothing to compare against except that it can hold a packet
 		burst = b.Burst
-		if burst < maxPkt {
-			return 0, 0, failSig(t, sigFields+"/default-burst/"+dirName(dir), "%s default burst %d cannot hold a maximum-size packet (%s)", dirName(dir), burst, s)
+		if rate != 0 && burst < maxPkt {
+			return 0, 0, 0, failSig(t, sigFields+"/default-burst/"+dirName(dir), "%s default burst %d cannot hold a maximum-size packet (%s)", dirName(dir), burst, s)
 		}
-	} else if b.Burst != burst {
+	case b.Burst > burst && rate != 0:
 		if dir == dirIngress {
-			if !failSig(t, sigIngressBurst, "policy %s configures burst %d but the ingress bucket enforces burst %d", s, s.Burst, b.Burst) {
+			if !failSig(t, sigIngressBurst, "policy %s configures burst %d but the ingress bucket enforces burst %d: upload may exceed %d bytes + rate*window", s, s.Burst, b.Burst, s.Burst) {
 				return
 			}
 			// listed: continue against the burst actually stored, so the limiter itself is still explored
 			burst = b.Burst
 		} else {
-			return 0, 0, failSig(t, sigFields+"/burst/"+dirName(dir), "%s bucket of %s has burst %d, policy says %d", dirName(dir), s, b.Burst, burst)
+			return 0, 0, 0, failSig(t, sigFields+"/burst/"+dirName(dir), "%s bucket of %s has burst %d, policy says %d", dirName(dir), s, b.Burst, burst)
 		}
-	}
-	if b.Tokens > uint64(b.Burst) {
-		return 0, 0, failSig(t, sigFields+"/tokens/"+dirName(dir), "%s bucket of %s starts with %d tokens > burst %d", dirName(dir), s, b.Tokens, b.Burst)
+	case b.Burst < burst:
+		s.smaller[dir] = true
 	}
 	if b.Prio != s.Prio {
-		return 0, 0, failSig(t, sigFields+"/priority/"+dirName(dir), "%s bucket of %s has priority %d, policy says %d", dirName(dir), s, b.Prio, s.Prio)
+		return 0, 0, 0, failSig(t, sigFields+"/priority/"+dirName(dir), "%s bucket of %s has priority %d, policy says %d", dirName(dir), s, b.Prio, s.Prio)
 	}
-	return rate, burst, false
+	return rate, burst, bkt, false
 }
 
 // flow is the traffic of one subscriber in one direction inside a TC-layer case.
@@ -167,7 +175,8 @@ type flow struct {
 	sub   *subscriber
 	dir   int
 	rate  uint64
-	burst uint32
+	burst uint32 // contract
+	bkt   uint32 // size of the enforcing bucket (<= burst)
 	ev    []event
 }
 
@@ -201,11 +210,11 @@ func (p *plane) setup(t fataler, subs []*subscriber, steer bool) (flows []*flow,
 			if ab || !found {
 				return nil, true
 			}
-			rate, burst, ab := contract(t, s, dir, b)
+			rate, burst, bkt, ab := contract(t, s, dir, b)
 			if ab {
 				return nil, true
 			}
-			flows = append(flows, &flow{sub: s, dir: dir, rate: rate, burst: burst})
+			flows = append(flows, &flow{sub: s, dir: dir, rate: rate, burst: burst, bkt: bkt})
 		}
 	}
 	return flows, false
@@ -268,7 +277,7 @@ func TestPropTCSequence(t *testing.T) {
 		}
 		// the sequence was generated for (seq.Rate, seq.Burst); if the enforced contract differs
 		// (default burst, listed ingress-burst finding) the arrivals stay valid, only saturation may not hold
-		seq.Burst = mf.burst
+		seq.Burst = mf.bkt
 		oth := other(rt, "peer")
 		cross := rapid.IntRange(0, 3).Draw(rt, "cross")
 		pl := newPlayer(seq)
@@ -320,7 +329,7 @@ func TestPropTCSequence(t *testing.T) {
 			ctx := func() string {
 				return fmt.Sprintf("%s of %s, contract rate=%d burst=%d, t0=%d, %d subscribers, arrivals %v", dirName(f.dir), f.sub, f.rate, f.burst, seq.T0, len(subs), sampleEvents(f.ev, 40))
 			}
-			ab, c := verdictCheck(rt, f.ev, f.rate, f.burst, sigEnforcedOver+"/"+dirName(f.dir), sigEnforcedRate0+"/"+dirName(f.dir), ctx)
+			ab, c := verdictCheck2(rt, f.ev, f.rate, f.burst, f.bkt, sigEnforcedOver+"/"+dirName(f.dir), sigEnforcedRate0+"/"+dirName(f.dir), ctx)
 			if ab {
 				return
 			}
@@ -345,7 +354,10 @@ func TestPropTCSequence(t *testing.T) {
 		}
 		nt := nonTrivial(mf.ev)
 		if nt {
-			cls = append(cls, "nt:drop-then-admit")
+			cls = append(cls, "nt:drop-then-admit", "nt:tc:"+dirName(dir))
+		}
+		if main.smaller[dir] {
+			cls = append(cls, "ingress-bucket-below-policy")
 		}
 		vstat.Case(nt, vstat.Hash("tc", dir, main.String(), seq.T0, len(subs), cross, fmt.Sprint(mf.ev)),
 			func() any {
